@@ -17,7 +17,7 @@ Docs == PoolLet
 VX == VarT(<<36,120>>)  VY == VarT(<<36,121>>)
 A == Id(<<97>>)  B == Id(<<98>>)
 
-BindExprs == { <<A>>, <<CurT>>, <<Json(<<96,49,96>>)>>, <<VX>>, <<B, LB, IntT(<<48>>), RB>> }
+BindExprs == { <<A>>, <<CurT>>, <<Json(<<96,49,96>>)>>, <<VX>>, <<B, LB, IntT(<<48>>), RB>>, <<Json(<<96,110,117,108,108,96>>)>>, <<Json(<<96,102,97,108,115,101,96>>)>> }
 Bind1 == { <<v, AssignT>> \o e : v \in {VX, VY}, e \in BindExprs }
 Bind2 == { <<VX, AssignT>> \o e1 \o <<Comma, VY, AssignT>> \o e2 : e1 \in {<<A>>, <<Json(<<96,49,96>>)>>}, e2 \in {<<VX>>, <<B>>, <<A>>} }
          \cup { <<VX, AssignT, A, Comma, VX, AssignT, B>> }      \* duplicate name in one let
@@ -43,7 +43,9 @@ Wrap(l) == { l,
              <<B, LB, Star, RB, Dot, LB>> \o l \o <<RB>> }        \* let inside a projection
 
 InnerBinds == { <<VX, AssignT, Json(<<96,57,96>>)>>, <<VY, AssignT, VX>>, <<VX, AssignT, VX>>,
-                <<VX, AssignT, CurT, Comma, VY, AssignT, VX>> }
+                <<VX, AssignT, CurT, Comma, VY, AssignT, VX>>,
+                <<VX, AssignT, Json(<<96,110,117,108,108,96>>)>>,             \* shadowing by null is still shadowing
+                <<VX, AssignT, Id(<<110,111,115,117,99,104>>)>>, <<VX, AssignT, Id(<<97>>)>> }   \* null / per-element values
 InnerBody == { <<VX>>, <<LB, VX, Comma, VY, RB>>, <<B, LB, Star, RB, Dot, LB, VX, RB>> }
 Lets1 == { LetOf(bs, b) : bs \in InnerBinds, b \in InnerBody }
 Body1 == UNION { Wrap(l) : l \in Lets1 }
